@@ -90,7 +90,10 @@ Section Mono.
        iface_set name existing ;;;
        ret existing
      | None =>
-       r <-- remapped_get (TInterface i) ;;;
+       r <-- match i_id x with
+             | Some _ => remapped_get (TInterface i)
+             | None => ret None
+             end ;;;
        match r with
        | Some (TInterface y) => ret y
        | Some _ => panic
@@ -103,9 +106,8 @@ Section Mono.
                         end) (i_uses x) ;;;
          es <-- mapM (fun nk : str * kind => k' <-- remap_item_kind ord cf f t (snd nk) ;;; ret (fst nk, k')) (i_exports x) ;;;
          y <-- add_if (mkif (i_id x) us es) ;;;
-         remapped_new (TInterface i) (TInterface y) ;;;
          match i_id x with
-         | Some name => iface_new name y
+         | Some name => remapped_new (TInterface i) (TInterface y) ;;; iface_new name y
          | None => ret tt
          end ;;;
          ret y
